@@ -152,6 +152,6 @@ def check_case(case):
 
 def run(tier="quick", seed=0):
     r = common.run("bounded.C19", cases(tier, seed), bound="profile triples over 3 candidates (sampled); ballot graph n<=5 (quick) / 6 (thorough) exhaustive",
-                   rule=RULE, budget_s=150 if tier == "quick" else 1500)
+                   rule=RULE, budget_s=600 if tier == "quick" else 1500)
     r["assumptions"].append("lp_dist compared with the definition up to 1e-9 (machine floats, A-FLOAT)")
     return r
